@@ -457,7 +457,8 @@ class Unit:
                 if rw[0] == 'exact':
                     bsl.replace_exact(rw[1], rw[2], rw[3])
                 else:
-                    bsl.sub(rw[0], rw[1], rw[2], require=True)
+                    # a 4th element 'opt' marks a rewrite that need not fire (the construct may legitimately be absent)
+                    bsl.sub(rw[0], rw[1], rw[2], require=not (len(rw) > 3 and rw[3] == 'opt'))
             sha_out = sha(ssl.text + bsl.text)
             pieces = self._splice_body(bsl, fn, qual, file, bline, clauses)
             for text, origin in pieces:
